@@ -4,8 +4,11 @@ package req
 
 import (
 	"compress/gzip"
+	"crypto/tls"
 	"fmt"
 	"io"
+	"math/rand"
+	"net"
 	"net/http"
 	"net/http/httptest"
 	"strconv"
@@ -15,6 +18,7 @@ import (
 	"time"
 
 	"github.com/imroc/req/v3/internal/verifh"
+	qhttp3 "github.com/quic-go/quic-go/http3"
 	"golang.org/x/text/encoding"
 )
 
@@ -25,25 +29,48 @@ type c15E2ECase struct {
 	pause time.Duration
 }
 
-// TestVerif_C15_e2e: a real client against an in-process origin (HTTP/1.1 and HTTP/2 over
-// loopback) that writes the body segment by segment with an explicit Flush() in between;
-// judged by the independent oracle only (the exact read segmentation is the kernel's).
-func TestVerif_C15_e2e(t *testing.T) {
-	s := verifh.New(t, "C15", "e2e",
-		"real Client (default / SetAutoDecodeContentType / SetAutoDecodeAllContentType / DisableAutoDecode / custom func) GET from an httptest origin over HTTP/1.1 and HTTP/2 (TLS, loopback); the origin writes the "+
-			"generated body (24 charsets x declaration sites x lengths around 512/1024/4096) in generated segments with Flush() and a short pause between them, optionally gzip-compressed; the caller reads with "+
-			"Response.Bytes() (io.ReadAll: 512-byte first read) or with its own dirty buffers. Oracle: body in {original, x/text transcoding of the whole original}; header charset applied; unselected untouched. "+
-			"non-trivial = selected, a charset applies")
-	r := s.Rand()
-	var mu sync.Mutex
-	cases := map[string]*c15E2ECase{}
+// one generated resource + the settings it is fetched with
+type c15E2EGen struct {
+	id   string
+	cs   c15cs
+	site string
+	b    c15Body
+	ct   string
+	st   c15Settings
+	ec   *c15E2ECase
+	// a small body written in one uncompressed segment whose declaration (BOM / meta) is complete:
+	// read with Response.Bytes() it must come back transcoded on every protocol
+	small bool
+}
+
+// the origins: one handler behind HTTP/1.1 (plain TCP), HTTP/1.1+HTTP/2 (TLS over TCP; it
+// advertises the HTTP/3 origin through Alt-Svc) and HTTP/3 (quic-go http3 server, loopback UDP).
+type c15Origins struct {
+	mu     sync.Mutex
+	cases  map[string]*c15E2ECase
+	h1URL  string
+	tlsURL string
+	h3URL  string
+	close  func()
+}
+
+func c15StartOrigins(t *testing.T) *c15Origins {
+	o := &c15Origins{cases: map[string]*c15E2ECase{}}
+	udp, err := net.ListenUDP("udp", &net.UDPAddr{IP: net.IPv4(127, 0, 0, 1)})
+	if err != nil {
+		t.Fatalf("infra: udp listen: %v", err)
+	}
+	altSvc := `h3=":` + strconv.Itoa(udp.LocalAddr().(*net.UDPAddr).Port) + `"; ma=3600`
 	handler := http.HandlerFunc(func(w http.ResponseWriter, req *http.Request) {
-		mu.Lock()
-		c := cases[req.URL.Query().Get("id")]
-		mu.Unlock()
+		o.mu.Lock()
+		c := o.cases[req.URL.Query().Get("id")]
+		o.mu.Unlock()
 		if c == nil {
 			w.WriteHeader(404)
 			return
+		}
+		if req.TLS != nil && req.ProtoMajor < 3 {
+			w.Header().Set("Alt-Svc", altSvc)
 		}
 		if c.ct != "" {
 			w.Header().Set("Content-Type", c.ct)
@@ -75,150 +102,287 @@ func TestVerif_C15_e2e(t *testing.T) {
 		}
 	})
 	h1 := httptest.NewServer(handler)
-	defer h1.Close()
 	h2 := httptest.NewUnstartedServer(handler)
 	h2.EnableHTTP2 = true
 	h2.StartTLS()
-	defer h2.Close()
+	h3 := &qhttp3.Server{Handler: handler, TLSConfig: qhttp3.ConfigureTLSConfig(&tls.Config{Certificates: h2.TLS.Certificates})}
+	go h3.Serve(udp)
+	o.h1URL, o.tlsURL, o.h3URL = h1.URL, h2.URL, "https://"+udp.LocalAddr().String()
+	o.close = func() {
+		h3.Close()
+		udp.Close()
+		h2.Close()
+		h1.Close()
+	}
+	return o
+}
 
-	n := verifh.N(220, 3000)
-	for i := 0; i < n; i++ {
-		cs := verifh.Pick(r, c15Charsets)
-		var site string
-		switch cs.kind {
-		case "u16le", "u16be":
-			site = verifh.Pick(r, []string{"bom", "bom", "header"})
-		case "utf8bom":
-			site = "bom"
-		case "utf8":
-			site = verifh.Pick(r, []string{"none", "metacharset", "header"})
-		default:
-			site = verifh.Pick(r, []string{"header", "metacharset", "metacharset", "metahttpequiv", "none", "conflict-meta", "conflict-header", "decoy"})
-		}
-		size := verifh.Pick(r, []int{3, 68, 100, 300, 511, 512, 513, 700, 1023, 1024, 1025, 2048})
-		if r.Intn(12) == 0 {
-			size = verifh.Pick(r, []int{4095, 4096, 4097, 9000})
-		}
-		bodySite := site
-		switch site {
-		case "header", "bom", "none":
-			bodySite = "none"
-		case "conflict-header":
-			bodySite = "metacharset"
-		}
-		b := c15MakeBody(r, cs, bodySite, size, verifh.Pick(r, []int{0, 0, 0, 490, 1000}))
-		ct := verifh.Pick(r, []string{"text/html", "text/html", "text/plain", "application/json", "application/xml", "image/png", "application/octet-stream", "TEXT/HTML"})
-		switch site {
-		case "header":
-			ct = verifh.Pick(r, []string{"text/html", "application/json", "text/plain"}) + "; charset=" + cs.label
-		case "conflict-header":
-			ct = "text/html; charset=" + verifh.Pick(r, []string{"big5", "windows-1252", "utf-8", "x-unknown", "utf-16be"})
-		}
-		st := c15PickSettings(r)
-		if st.kind == "direct" {
-			st.kind = "default"
-		}
-		ec := &c15E2ECase{ct: ct, segs: c15Segment(r, b, verifh.Pick(r, []int{0, 2, 3, 4, 5, 6, 6})), gzip: r.Intn(5) == 0}
-		if len(ec.segs) > 12 {
-			ec.segs = append(ec.segs[:11:11], strings.Join(ec.segs[11:], ""))
-		}
-		if len(ec.segs) > 1 {
-			ec.pause = time.Duration(verifh.Pick(r, []int{0, 300, 1500})) * time.Microsecond
-		}
-		id := strconv.Itoa(i)
-		mu.Lock()
-		cases[id] = ec
-		mu.Unlock()
+func c15E2EGenerate(r *rand.Rand, o *c15Origins, i int) *c15E2EGen {
+	cs := verifh.Pick(r, c15Charsets)
+	var site string
+	switch cs.kind {
+	case "u16le", "u16be":
+		site = verifh.Pick(r, []string{"bom", "bom", "header"})
+	case "utf8bom":
+		site = "bom"
+	case "utf8":
+		site = verifh.Pick(r, []string{"none", "metacharset", "header"})
+	default:
+		site = verifh.Pick(r, []string{"header", "metacharset", "metacharset", "metahttpequiv", "none", "conflict-meta", "conflict-header", "decoy"})
+	}
+	size := verifh.Pick(r, []int{3, 68, 100, 300, 511, 512, 513, 700, 1023, 1024, 1025, 2048})
+	if r.Intn(12) == 0 {
+		size = verifh.Pick(r, []int{4095, 4096, 4097, 9000})
+	}
+	bodySite := site
+	switch site {
+	case "header", "bom", "none":
+		bodySite = "none"
+	case "conflict-header":
+		bodySite = "metacharset"
+	}
+	b := c15MakeBody(r, cs, bodySite, size, verifh.Pick(r, []int{0, 0, 0, 490, 1000}))
+	ct := verifh.Pick(r, []string{"text/html", "text/html", "text/plain", "application/json", "application/xml", "image/png", "application/octet-stream", "TEXT/HTML"})
+	switch site {
+	case "header":
+		ct = verifh.Pick(r, []string{"text/html", "application/json", "text/plain"}) + "; charset=" + cs.label
+	case "conflict-header":
+		ct = "text/html; charset=" + verifh.Pick(r, []string{"big5", "windows-1252", "utf-8", "x-unknown", "utf-16be"})
+	}
+	st := c15PickSettings(r)
+	if st.kind == "direct" {
+		st.kind = "default"
+	}
+	ec := &c15E2ECase{ct: ct, segs: c15Segment(r, b, verifh.Pick(r, []int{0, 2, 3, 4, 5, 6, 6})), gzip: r.Intn(5) == 0}
+	if len(ec.segs) > 12 {
+		ec.segs = append(ec.segs[:11:11], strings.Join(ec.segs[11:], ""))
+	}
+	if len(ec.segs) > 1 {
+		ec.pause = time.Duration(verifh.Pick(r, []int{0, 300, 1500})) * time.Microsecond
+	}
+	small := false
+	if r.Intn(5) == 0 && (site == "bom" || site == "metacharset" || site == "metahttpequiv" || site == "conflict-meta") {
+		small = true
+		b = c15MakeBody(r, cs, bodySite, verifh.Pick(r, []int{100, 150, 200, 300}), 0)
+		ec = &c15E2ECase{ct: ct, segs: []string{b.body}}
+	}
+	g := &c15E2EGen{id: strconv.Itoa(i), cs: cs, site: site, b: b, ct: ct, st: st, ec: ec, small: small}
+	o.mu.Lock()
+	o.cases[g.id] = ec
+	o.mu.Unlock()
+	return g
+}
 
-		proto := verifh.Pick(r, []string{"h1", "h1", "h2"})
-		c := C()
-		c15Apply(c, &st, ct)
-		url := h1.URL
-		if proto == "h2" {
-			c.EnableInsecureSkipVerify()
-			url = h2.URL
-		}
-		mode := verifh.Pick(r, []string{"bytes", "bytes", "manual"})
-		var got []byte
-		var term, anomaly string
-		var err error
-		ptxt, panicked := verifh.Safely(func() {
-			if mode == "bytes" {
-				var resp *Response
-				resp, err = c.R().Get(url + "/?id=" + id)
-				if err == nil {
-					got = resp.Bytes()
-					term = "eof"
-				}
-			} else {
-				var resp *Response
-				resp, err = c.R().DisableAutoReadResponse().Get(url + "/?id=" + id)
-				if err == nil {
-					bufs, tail, _ := c15PickBufs(r, len(b.body))
-					got, term, anomaly = c15Drain(resp.Body, bufs, tail, []byte{0xAA})
-					resp.Body.Close()
-				}
+// c15E2EFetch fetches the resource with client c (already configured for g.st) and judges the
+// delivered body. how names the protocol dimension of the case; the protocol that actually
+// carried the response is returned.
+func c15E2EFetch(s *verifh.Session, r *rand.Rand, c *Client, base string, how string, g *c15E2EGen) (proto string) {
+	b, ct, st := g.b, g.ct, g.st
+	mode := verifh.Pick(r, []string{"bytes", "bytes", "manual"})
+	if g.small {
+		mode = "bytes"
+	}
+	human := fmt.Sprintf("%s %s charset=%s site=%s settings=%s ct=%q len=%d segs=%d gzip=%v", how, mode, g.cs.label, g.site, st.kind, ct, len(b.body), len(g.ec.segs), g.ec.gzip)
+	id := fmt.Sprintf("e2e/%s/%s/%s/%s/%s/%d", g.id, how, g.cs.label, g.site, st.kind, len(b.body))
+	s.Begin(id, human)
+	var got []byte
+	var term, anomaly string
+	var err error
+	ptxt, panicked := verifh.Safely(func() {
+		var resp *Response
+		if mode == "bytes" {
+			resp, err = c.R().Get(base + "/?id=" + g.id)
+			if err == nil {
+				got = resp.Bytes()
+				term = "eof"
 			}
-		})
-		if panicked {
-			anomaly = "panic in the caller's goroutine: " + ptxt
+		} else {
+			resp, err = c.R().DisableAutoReadResponse().Get(base + "/?id=" + g.id)
+			if err == nil {
+				bufs, tail, _ := c15PickBufs(r, len(b.body))
+				got, term, anomaly = c15Drain(resp.Body, bufs, tail, []byte{0xAA})
+				resp.Body.Close()
+			}
 		}
-		c.GetTransport().CloseIdleConnections()
-		// oracle
-		_, hdrCS, hasCS, _ := c15MediaParse(ct)
-		var hdrEnc encoding.Encoding
-		if hasCS {
-			hdrEnc = c15Lookup(hdrCS)
+		if err == nil && resp.Response != nil {
+			proto = resp.Proto
 		}
-		sel := st.selected(ct, "")
-		var allowed []string
-		var why string
-		peekPath := false
-		switch {
-		case !sel:
-			allowed, why = []string{b.body}, "content type not selected: body must be untouched"
-		case hasCS && (strings.Contains(strings.ToLower(hdrCS), "utf-8") || strings.Contains(strings.ToLower(hdrCS), "utf8")):
-			allowed, why = []string{b.body}, "Content-Type declares utf-8: body must be untouched"
-		case hasCS && hdrEnc != nil:
-			allowed, why = []string{c15Transcode(hdrEnc, b.body)}, "Content-Type charset must be applied"
-		case hasCS:
-			allowed, why = []string{b.body}, "unsupported Content-Type charset: body must be untouched"
-		default:
-			peekPath = true
-			allowed = []string{b.body}
-			if _, e := c15ExpectedBOM(b.body); e != nil {
-				allowed = append(allowed, c15Transcode(e, b.body))
-			} else if !strings.HasPrefix(b.body, "\xef\xbb\xbf") {
-				for _, d := range b.decls {
-					if d.real {
-						if e := c15Lookup(d.label); e != nil {
-							allowed = append(allowed, c15Transcode(e, b.body))
-						}
+	})
+	if panicked {
+		anomaly = "panic in the caller's goroutine: " + ptxt
+	}
+	// oracle
+	_, hdrCS, hasCS, _ := c15MediaParse(ct)
+	var hdrEnc encoding.Encoding
+	if hasCS {
+		hdrEnc = c15Lookup(hdrCS)
+	}
+	sel := st.selected(ct, "")
+	var allowed []string
+	var why string
+	peekPath := false
+	switch {
+	case !sel:
+		allowed, why = []string{b.body}, "content type not selected: body must be untouched"
+	case hasCS && (strings.Contains(strings.ToLower(hdrCS), "utf-8") || strings.Contains(strings.ToLower(hdrCS), "utf8")):
+		allowed, why = []string{b.body}, "Content-Type declares utf-8: body must be untouched"
+	case hasCS && hdrEnc != nil:
+		allowed, why = []string{c15Transcode(hdrEnc, b.body)}, "Content-Type charset must be applied"
+	case hasCS:
+		allowed, why = []string{b.body}, "unsupported Content-Type charset: body must be untouched"
+	default:
+		peekPath = true
+		allowed = []string{b.body}
+		if _, e := c15ExpectedBOM(b.body); e != nil {
+			allowed = append(allowed, c15Transcode(e, b.body))
+		} else if !strings.HasPrefix(b.body, "\xef\xbb\xbf") {
+			for _, d := range b.decls {
+				if d.real {
+					if e := c15Lookup(d.label); e != nil {
+						allowed = append(allowed, c15Transcode(e, b.body))
 					}
 				}
 			}
-			why = "sniffing: original or the whole-body transcoding from a declared charset"
 		}
-		ok := err == nil && anomaly == "" && term == "eof" && c15In(string(got), allowed)
-		class := ""
-		if !ok && err == nil && peekPath && len(allowed) > 1 {
-			// pinned tree: every sniffed charset goes through the defective peekRead
-			class = c15LegacyClass
+		why = "sniffing: original or the whole-body transcoding from a declared charset"
+	}
+	ok := err == nil && anomaly == "" && term == "eof" && c15In(string(got), allowed)
+	// The splitting of the body may decide whether a declaration is noticed — but a body of at most
+	// 300 bytes written by the origin in ONE uncompressed segment reaches the first 512-byte read of
+	// io.ReadAll whole on loopback, on every protocol: there a byte-order mark or a complete meta
+	// declaration of a supported non-UTF-8 charset must have been applied.
+	if ok && peekPath && mode == "bytes" && len(g.ec.segs) == 1 && !g.ec.gzip && len(b.body) >= 2 && len(b.body) <= 300 {
+		var must encoding.Encoding
+		if bn, e := c15ExpectedBOM(b.body); bn != "" {
+			must = e // nil for the UTF-8 BOM
+		} else {
+			must, _ = c15ExpectedPrescan(b, len(b.body))
 		}
-		s.Count("proto:" + proto)
-		s.Count("mode:" + mode)
-		s.Count("site:" + site)
-		if ec.gzip {
-			s.Count("gzip")
+		if must != nil && c15Transcode(must, b.body) != b.body {
+			s.Count("must-notice-judged:" + how)
+			if string(got) == b.body {
+				ok, why = false, "a charset declared by a BOM / complete meta tag in a small single-segment body was not applied"
+			}
 		}
-		if !ok {
-			s.Count("oracle-reject")
+	}
+	class := ""
+	if !ok && err == nil && peekPath && len(allowed) > 1 && string(got) != b.body {
+		// pinned tree (before fixes/C15-1): every sniffed charset went through the defective peekRead
+		class = c15LegacyClass
+	}
+	s.Count("how:" + how)
+	s.Count("proto:" + proto)
+	s.Count("mode:" + mode)
+	s.Count("site:" + g.site)
+	if g.ec.gzip {
+		s.Count("gzip")
+	}
+	if !ok {
+		s.Count("oracle-reject")
+	}
+	detail := fmt.Sprintf("%s; response over %q; err=%v term=%s anomaly=%s got=%s", why, proto, err, term, anomaly, c15Short(string(got)))
+	s.Observe(id, ok, class, sel && len(b.body) > 0 && (hdrEnc != nil || len(allowed) > 1), human+fmt.Sprintf(" -> %s, %d bytes", proto, len(got)), detail)
+	return proto
+}
+
+// c15Reconfigure puts a long-lived client back to the defaults and applies the case's settings
+// through the public setters (settings change between two requests of one client).
+func c15Reconfigure(c *Client, st *c15Settings, ct string) {
+	c.EnableAutoDecode()
+	c.SetAutoDecodeContentTypeFunc(nil)
+	c15Apply(c, st, ct)
+}
+
+func c15CloseClient(c *Client) {
+	c.GetTransport().CloseIdleConnections()
+	if c.Transport.t3 != nil {
+		c.Transport.t3.Close()
+	}
+}
+
+// TestVerif_C15_e2e: a real client against in-process origins over HTTP/1.1, HTTP/2 and HTTP/3
+// (loopback) that write the body segment by segment with an explicit Flush() in between;
+// judged by the independent oracle only (the exact read segmentation is the kernel's).
+func TestVerif_C15_e2e(t *testing.T) {
+	s := verifh.New(t, "C15", "e2e",
+		"real Client (default / SetAutoDecodeContentType / SetAutoDecodeAllContentType / DisableAutoDecode / custom func) GET from in-process origins: HTTP/1.1 (plain), HTTP/2 (TLS), HTTP/3 (quic-go http3 server, "+
+			"EnableForceHTTP3) with a fresh client per request; AND sequences of requests on ONE long-lived client with the settings changed between requests: HTTP/1.1 keep-alive, forced HTTP/2, forced HTTP/3, and "+
+			"EnableHTTP3 against the TLS origin that advertises Alt-Svc h3 (first responses over HTTP/2, later ones silently over HTTP/3). The origin writes the generated body (24 charsets x declaration sites x lengths "+
+			"around 512/1024/4096) in generated segments with Flush() and a short pause, optionally gzip-compressed; the caller reads with Response.Bytes() (io.ReadAll: 512-byte first read) or with its own dirty "+
+			"buffers. Oracle: body in {original, x/text transcoding of the whole original}; header charset applied; unselected untouched; a BOM / a meta tag complete in a single small segment must be noticed; the "+
+			"same on every protocol. non-trivial = selected, a charset applies")
+	r := s.Rand()
+	o := c15StartOrigins(t)
+	defer o.close()
+	next := 0
+	gen := func() *c15E2EGen { next++; return c15E2EGenerate(r, o, next) }
+
+	// ---- fresh client per request, protocol forced
+	n := verifh.N(220, 3000)
+	for i := 0; i < n; i++ {
+		g := gen()
+		how := verifh.Pick(r, []string{"h1", "h1", "h2", "h2", "h3", "h3"})
+		c := C().SetTimeout(20 * time.Second)
+		c15Apply(c, &g.st, g.ct)
+		base := o.h1URL
+		switch how {
+		case "h2":
+			c.EnableInsecureSkipVerify().EnableForceHTTP2()
+			base = o.tlsURL
+		case "h3":
+			c.EnableInsecureSkipVerify().EnableForceHTTP3()
+			base = o.h3URL
 		}
-		detail := fmt.Sprintf("%s; err=%v term=%s anomaly=%s got=%s", why, err, term, anomaly, c15Short(string(got)))
-		s.Observe(fmt.Sprintf("e2e/%d/%s/%s/%s/%s/%d", i, proto, cs.label, site, st.kind, len(b.body)), ok, class,
-			sel && len(b.body) > 0 && (hdrEnc != nil || len(allowed) > 1),
-			fmt.Sprintf("%s %s charset=%s site=%s settings=%s ct=%q len=%d segs=%d gzip=%v -> %d bytes", proto, mode, cs.label, site, st.kind, ct, len(b.body), len(ec.segs), ec.gzip, len(got)),
-			detail)
+		c15E2EFetch(s, r, c, base, how, g)
+		c15CloseClient(c)
+	}
+
+	// ---- sequences on one long-lived client, settings changed between the requests
+	m := verifh.N(40, 500)
+	for _, how := range []string{"seq-h1", "seq-h2", "seq-h3"} {
+		c := C().SetTimeout(20 * time.Second)
+		base := o.h1URL
+		switch how {
+		case "seq-h2":
+			c.EnableInsecureSkipVerify().EnableForceHTTP2()
+			base = o.tlsURL
+		case "seq-h3":
+			c.EnableInsecureSkipVerify().EnableForceHTTP3()
+			base = o.h3URL
+		}
+		for i := 0; i < m; i++ {
+			g := gen()
+			c15Reconfigure(c, &g.st, g.ct)
+			c15E2EFetch(s, r, c, base, how, g)
+		}
+		c15CloseClient(c)
+	}
+
+	// ---- Alt-Svc upgrade: the same client, the same origin URL; the protocol changes underneath
+	for round := 0; round < verifh.N(2, 6); round++ {
+		c := C().SetTimeout(20 * time.Second).EnableInsecureSkipVerify().EnableHTTP3()
+		deadline := time.Now().Add(8 * time.Second)
+		onH3, before := 0, 0
+		for onH3 < m/2 {
+			g := gen()
+			c15Reconfigure(c, &g.st, g.ct)
+			proto := c15E2EFetch(s, r, c, o.tlsURL, "altsvc", g)
+			if proto == "HTTP/3.0" {
+				onH3++
+				s.Count("altsvc:response-after-upgrade")
+			} else {
+				before++
+				s.Count("altsvc:response-before-upgrade")
+				if before > 3 {
+					time.Sleep(15 * time.Millisecond) // the QUIC connection is dialled in the background
+				}
+				if time.Now().After(deadline) {
+					s.Count("altsvc:never-upgraded")
+					break
+				}
+			}
+		}
+		c15CloseClient(c)
 	}
 	s.Finish()
 }
